@@ -408,4 +408,74 @@ Section Main.
       as [L [HL [_ [_ [_ [_ Hdec]]]]]].
     cbn [enc dec]. rewrite HL. eexists. split; [reflexivity|]. now rewrite Hdec.
   Qed.
+
+  (* ---------- canonical form: enc = the textbook encoder ---------- *)
+  Lemma chunks_f_nil8 fc : chunks_f fc F [] = [].
+  Proof. destruct fc; reflexivity. Qed.
+
+  Lemma frags_chunks tag : forall fe fc e,
+      length e <= fe -> length e <= fc ->
+      frags F fe tag e = concat (map (fun c => tag :: N.of_nat (length c) :: c) (chunks_f fc F e)).
+  Proof.
+    induction fe as [|fe IH]; intros fc e Hfe Hfc.
+    - destruct e; [|cbn in Hfe; lia]. now rewrite chunks_f_nil8.
+    - destruct e as [|b e]; [now rewrite frags_nil, chunks_f_nil8|].
+      destruct fc as [|fc]; [cbn in Hfc; lia|].
+      rewrite frags_cons. cbn [chunks_f map concat]. cbn [app]. f_equal. f_equal. f_equal.
+      apply IH; rewrite skipn_length; cbn [length] in *; lia.
+  Qed.
+
+  Lemma emit_spec tag e : emit F tag e = spec_item F tag e.
+  Proof. unfold emit, spec_item, chunks. now apply frags_chunks. Qed.
+
+  Section CanonLevel.
+    Variable er : ty -> val -> R bytes.
+    Variable sr : ty -> val -> bytes.
+    Hypothesis Hcan : forall t v e, er t v = Ok e -> e = sr t v.
+
+    Lemma enc_fields_spec : forall fs vs e,
+        enc_fields F er fs vs = Ok e -> e = spec_fields F sr fs vs.
+    Proof.
+      induction fs as [|[tag ft] r IH]; intros vs e H.
+      - destruct vs; cbn in H; [|discriminate]. now injection H as <-.
+      - destruct vs as [|o vr]; [discriminate|]. cbn [enc_fields] in H.
+        unfold spec_fields. cbn [combine map concat]. fold (spec_fields F sr r vr).
+        destruct o as [v|].
+        + destruct (er ft v) as [e1| | |] eqn:E1; cbn [rbind] in H; try discriminate.
+          destruct (enc_fields F er r vr) as [e2| | |] eqn:E2; cbn [rbind] in H; try discriminate.
+          injection H as <-. unfold spec_field. cbn [fst snd].
+          now rewrite emit_spec, (Hcan _ _ _ E1), (IH _ _ E2).
+        + unfold spec_field at 1. cbn [snd app]. now apply IH.
+    Qed.
+
+    Lemma enc_seq_spec fs : forall l first e,
+        enc_seq F er fs l first = Ok e ->
+        e = match l with
+            | [] => []
+            | _ => (if first then [] else [0%N; 0%N]) ++ join [0%N; 0%N] (map (spec_fields F sr fs) l)
+            end.
+    Proof.
+      induction l as [|vs r IH]; intros first e H.
+      - cbn in H. now injection H as <-.
+      - cbn [enc_seq] in H.
+        destruct (enc_fields F er fs vs) as [e1| | |] eqn:E1; cbn [rbind] in H; try discriminate.
+        destruct (enc_seq F er fs r false) as [e2| | |] eqn:E2; cbn [rbind] in H; try discriminate.
+        injection H as <-. rewrite (enc_fields_spec _ _ _ E1), (IH false e2 E2).
+        destruct r as [|vs2 r']; [cbn [map join]; now rewrite app_nil_r|].
+        cbn [map]. rewrite join_cons2. reflexivity.
+    Qed.
+  End CanonLevel.
+
+  Lemma canonical_n : forall n t v e, enc F n t v = Ok e -> e = spec F n t v.
+  Proof.
+    induction n as [|n IH]; intros t v e H; [discriminate|].
+    destruct t as [k|ms| | |fs|fs|k|]; destruct v as [x|b|vs|l|ids]; cbn [enc] in H; try discriminate; cbn [spec].
+    - destruct (irange k x); [|discriminate]. now injection H as <-.
+    - destruct (N.ltb x 256); [|discriminate]. now injection H as <-.
+    - now injection H as <-.
+    - now injection H as <-.
+    - now apply (enc_fields_spec (enc F n) (spec F n) IH).
+    - apply (enc_seq_spec (enc F n) (spec F n) IH) in H. destruct l; [exact H|]. exact H.
+    - now apply pack_spec.
+  Qed.
 End Main.
